@@ -11,6 +11,11 @@ import (
 // VerifResetPools empties every library pool so that each case starts from the same global state.
 func VerifResetPools() {
 	VerifDrainChanPools()
+	scalarRCLock.Lock()
+	for _, p := range scalarRC {
+		vsync.Unregister(p) // the table entry is about to be deleted: the shim must not keep the pool either
+	}
+	scalarRCLock.Unlock()
 	VerifResetLazyGlobals()
 	vsync.ResetAll()
 	usePool = true
